@@ -180,6 +180,8 @@ static void explore_subject(Subject S, int rot, Local& L, const std::string& rep
     ops.push_back(op_compute(r1, 1, std::max<LD>(1e-6L, 1000 * S.eps), GEN_RULES[(rot + 1) % 6]));
     ops.push_back(op_compute(r0, 0, std::max<LD>(1e-10L, 50 * S.eps), GEN_RULES[(rot + 3) % 6]));
     if (PLAN.prop == "C06") ops.push_back(op_share(1, r0, PLAN.thorough ? 1000 : 300, std::max<LD>(1e-10L, 50 * S.eps), GEN_RULES[rot % 6]));
+    // an earlier compute() that throws at its very end (sorting rule the solver does not support)
+    if (PLAN.prop == "C06") ops.push_back(op_compute(r0, 5, 1e-10L, SortRule::LargestAlge));
     try
     {
         PropOracle<K> po(PLAN.prop, S, ops, L, replay);
